@@ -68,7 +68,7 @@ func VerifC11Sinks() {
 	for i := 0; i < n; i++ {
 		fails[i] = zz.Bool("fail" + ids[i])
 	}
-	zz.ReportRaces()
+	zz.ReportHeapRaces()
 	zz.ScheduleEraser(zz.Param("P", 1))
 	proc.Start()
 	for i := 0; i < n; i++ {
